@@ -453,16 +453,35 @@ def intersperse_rule(repo, rep, rule):
     f = u.funcs.get('intersperse')
     if f is None:
         raise AnalysisError('utils.intersperse vanished')
-    x, ys = f.params[0], f.params[1]
-    ylds = [y for y in ast.walk(f.node) if isinstance(y, ast.Yield)]
-    seq = [src(y.value) for y in sorted(ylds, key=lambda y: (y.lineno, y.col_offset))]
-    loops = [l for l in ast.walk(f.node) if isinstance(l, ast.For)]
-    ok = False
-    if len(loops) == 1 and isinstance(loops[0].target, ast.Name):
-        el = loops[0].target.id
-        inloop = [src(s_.value.value) for s_ in loops[0].body if isinstance(s_, ast.Expr) and isinstance(s_.value, ast.Yield)]
-        first = [s_ for s_ in f.node.body if isinstance(s_, ast.Expr) and isinstance(s_.value, ast.Yield)]
-        ok = inloop == [x, el] and len(first) == 1 and len(seq) == 3 and src(loops[0].iter) in ('it', 'iter(%s)' % ys)
+    # decided on what the function computes: interpreted on sequences of 0..5 distinct elements (a list and a one-shot iterator)
+    from engine.interp import Interp, Const, ListV, IterV, Undecided, Raised, PathLimit
+    ok, detail = True, ''
+    try:
+        for k in range(0, 6):
+            for one_shot in (False, True):
+                it = Interp(repo, {}, max_paths=4, max_depth=60)
+                it.concrete_context = True
+                it.eager_generators = {'intersperse'}
+                elems = [Const('e%d' % i) for i in range(k)]
+                arg = IterV(list(elems)) if one_shot else ListV(list(elems))
+                prs = it.explore(f, [Const('SEP'), arg], {})
+                if len(prs) != 1 or prs[0].raised is not None:
+                    ok, detail = False, 'intersperse(SEP, %d elements) %s' % (k, ('raises ' + prs[0].raised.what) if len(prs) == 1 else 'cannot be followed')
+                    break
+                got = [getattr(v, 'v', None) for v in it.iterate(prs[0].value)]
+                want = []
+                for i in range(k):
+                    if i:
+                        want.append('SEP')
+                    want.append('e%d' % i)
+                if got != want:
+                    ok, detail = False, 'intersperse(SEP, %s) yields %s' % (['e%d' % i for i in range(k)], got)
+                    break
+            if not ok:
+                break
+    except (Undecided, PathLimit) as e:
+        rep.undecided(rule, 'intersperse:every-element-with-separator-between', f.where, 'utils.intersperse cannot be interpreted: %s' % e)
+        return 1
     rep.check(ok, rule, 'intersperse:every-element-with-separator-between', f.where, 'y0, (x, y1), (x, y2), ...',
-              'utils.intersperse yields %s: elements (comment lines, string pieces) would be dropped, duplicated or left unseparated' % seq, nontrivial=True)
+              'utils.%s: elements (comment lines, string pieces) would be dropped, duplicated or left unseparated' % detail, nontrivial=True)
     return 1
